@@ -195,7 +195,8 @@ def gen_load(op, seed, thorough):
 
 def gen_store(op, seed, thorough):
     ra, rb = _regs(seed)
-    vals = alpha.B32_SMALL if thorough else rot(alpha.B32_SMALL, seed)[:6]
+    core = [0, 0xFFFFFF00, 0xFFFF0000, 0x80]
+    vals = alpha.B32_SMALL + core[1:3] if thorough else core + rot([v for v in alpha.B32_SMALL if v not in core], seed)[:4]
     for rs1, rs2 in ((rb, ra), (rb, rb), (rb, 0), (0, ra)):
         for base in _bases():
             for imm in LS_IMMS:
